@@ -66,10 +66,12 @@ theorem reph_keypress_conserves (layout : Layout) (cfg : Cfg) (hon : cfg.fixedOl
   obtain ⟨j, hj, hb, hp, _, _⟩ := reph_key_conserves_forward cfg hon s
   simp only [fKeyState, hv]
   split
-  · split
-    · exact ⟨_, rfl, hp, j, hj, hb⟩
-    · exact ⟨_, rfl, hp, j, hj, hb⟩
   · exact ⟨_, rfl, hp, j, hj, hb⟩
+  · split
+    · split
+      · exact ⟨_, rfl, hp, j, hj, hb⟩
+      · exact ⟨_, rfl, hp, j, hj, hb⟩
+    · exact ⟨_, rfl, hp, j, hj, hb⟩
 
 /-! ## 3. The reph key with the option off -/
 
